@@ -244,6 +244,29 @@ Qed.
 
 Ltac hyp := match goal with H : ?t |- ?t => exact H end.
 
+Lemma all_pieces_render d : fits d = true ->
+  Forall (fun p => exists s, render_piece d p = Ok s /\ String.length s = piece_len p) export_layout_src.
+Proof.
+  intro H. unfold fits in H.
+  repeat match type of H with (_ && _ = true) => apply andb_prop in H; let H' := fresh "F" in destruct H as [H H'] end.
+  unfold export_layout_src.
+  repeat (apply Forall_cons; [|]); try apply Forall_nil; cbv beta;
+  try (match goal with |- exists s, render_piece _ (PLit _) = _ /\ _ => eexists; split; reflexivity end).
+  - apply (int_piece d 0 5 (-9999) 99999); [hyp | clear; lia | vm_compute; reflexivity | vm_compute; reflexivity].
+  - apply name_piece; hyp.
+  - apply (text_piece d 2 1 0); hyp.
+  - apply (text_piece d 3 3 1); hyp.
+  - apply (text_piece d 4 1 0); hyp.
+  - apply (int_piece d 5 4 (-999) 9999); [hyp | clear; lia | vm_compute; reflexivity | vm_compute; reflexivity].
+  - apply (text_piece d 6 1 0); hyp.
+  - apply coord_piece; hyp.
+  - apply coord_piece; hyp.
+  - apply coord_piece; hyp.
+  - apply real_piece; hyp.
+  - apply real_piece; hyp.
+  - apply (text_piece d 12 2 1); hyp.
+Qed.
+
 Theorem line_80 d : fits d = true ->
   exists line, line_of_row d = Ok line /\ String.length line = 80%nat.
 Proof.
